@@ -127,6 +127,32 @@ namespace c12
     return true;
   }
 
+  // Class tag for the PartiIterative cases: is it POSSIBLE that p distinct centre cells all lie farther than the
+  // partitioner's exploration reach from some cell?  (reach = max(floor(n^(1/dim) + 1), n / p, 2) + 1 facet-neighbour
+  // steps, parti_iterative.hpp.)  Computed from the facet-adjacency graph of the snapshot by breadth-first search.
+  inline bool iterative_can_miss_cells(const ShapeTab& t, const MeshSnap& m, Idx p)
+  {
+    const int dim = t.dim, fd = dim - 1, nfc = t.nf(dim, fd); const Idx n = m.n[dim];
+    if(n > 3000) return false;
+    Idx thr = Idx(std::pow(double(n), 1.0 / double(dim)) + 1.0); thr = std::max<Idx>(thr, n / p); thr = std::max<Idx>(thr, 2);
+    const Idx reach = thr + 1;
+    std::vector<std::vector<Idx>> caf(m.n[fd]);
+    for(Idx i = 0; i < n; ++i) for(int j = 0; j < nfc; ++j) caf[m.idx[dim][fd][i * Idx(nfc) + Idx(j)]].push_back(i);
+    std::vector<Idx> dist(n), queue; queue.reserve(n);
+    for(Idx x = 0; x < n; ++x)
+    {
+      std::fill(dist.begin(), dist.end(), c10::NONE); queue.clear(); queue.push_back(x); dist[x] = 0;
+      for(std::size_t h = 0; h < queue.size(); ++h)
+      {
+        const Idx y = queue[h];
+        for(int j = 0; j < nfc; ++j) for(Idx z : caf[m.idx[dim][fd][y * Idx(nfc) + Idx(j)]]) if(dist[z] == c10::NONE) { dist[z] = dist[y] + 1; queue.push_back(z); }
+      }
+      Idx far = 0; for(Idx y = 0; y < n; ++y) if(dist[y] == c10::NONE || dist[y] > reach) ++far;
+      if(far >= p) return true;
+    }
+    return false;
+  }
+
   // family `parti`: built-in partitioners
   template<typename Shape_>
   void run_parti(vh::Ctx& c)
@@ -142,7 +168,7 @@ namespace c12
       c.tag("partitioner:2lvl");
       const Idx f = t.simplex ? Idx(t.cc(dim, dim)) : 2;
       Idx want;
-      if(r.coin(0.7)) { want = n0; const int k = int(r.range(0, t.simplex ? 1 : 2 * dim)); for(int i = 0; i < k && want * f <= 4096; ++i) want *= f; }
+      if(r.coin(0.7)) { want = n0; const int k = int(r.range(0, t.simplex ? 1 : 2 * dim)); for(int i = 0; i < k && want * f <= 1024; ++i) want *= f; }
       else want = Idx(r.range(1, long(4 * n0)));
       c.set_op("parti_2lvl");
       Geometry::Parti2Lvl<typename Ty<Shape_>::Mesh> parti(*base->get_mesh(), Index(want));
@@ -164,6 +190,7 @@ namespace c12
       if(r.coin(0.5) && n0 * Idx(t.cc(dim, dim)) <= 400) { base = base->refine_unique(Geometry::AdaptMode::none); c.tag("prerefined"); }
       const Idx ncells = Idx(base->get_mesh()->get_num_elements());
       const Idx want = pick_ranks(r, ncells);
+      { MeshSnap sm; c10::snap_mesh<Shape_>(*base->get_mesh(), sm, false); if(iterative_can_miss_cells(t, sm, want)) c.tag("unreached_cells_possible"); }
       c.set_op("parti_iterative");
       Dist::Comm comm = Dist::Comm::world();
       // (PartiIterative seeds its generator with time(nullptr): the search is not reproducible, so the witness carries
